@@ -412,7 +412,7 @@ pub fn run(ctx: &Ctx) {
         for a in [7u64, 8, 9, 10, 100, 200, 255, 256, 65535, 65536, 0x7fff_ffff, 0x8000_0000, 0xffff_fffe, 0xffff_ffff] {
             sp.push(SpecialCase { hash: h, kind: "many-levels-claimed".into(), a });
         }
-        for a in [65534u64, 65535, 65536, 65537, 70000, 75000, 80000, 131072, 300000] {
+        for a in [65534u64, 65535, 65536, 65537, 70000, 75000, 80000, 131070, 131071, 131072, 196605, 196607, 262140, 300000] {
             sp.push(SpecialCase { hash: h, kind: "long-sig".into(), a });
             sp.push(SpecialCase { hash: h, kind: "repeat-sig".into(), a });
         }
